@@ -59,6 +59,14 @@ def generate(seed, tier, index):
         if rf.chance(0.5):
             entries = "all"         # the whole-state function, reported in each rendering's own choice of units
         ac = rf.chance(0.5)         # with the chemostat mask applied (the default of the API)
+    setst = None
+    if rf.chance(0.15):
+        # one entry of the state is set by hand with a plain number (read in the system's own units) in every rendering
+        m_ = Model(spec)
+        setst = [rf.randint(0, m_.ns - 1), rf.randint(0, m_.nc - 1), float(rf.randint(1, int(1.5 * float(abs(m_.x0).max())) + 2))]
+        spec = dict(spec)
+        spec["state"] = [float(v) for v in m_.x0.ravel()]
+        spec["state"][setst[0] * m_.nc + setst[1]] = setst[2]
     cg = None
     sps = spec["space"]
     if sps["type"] == "grid" and all(b == "reflecting" for b in sps["bc"]) and rf.chance(0.4):
@@ -110,7 +118,7 @@ def generate(seed, tier, index):
                     ent["phys"]["style"] = style + "+units-reassigned"
                     break
         scripts.append(ent)
-        ops = [["sysinfo"], ["setup"], ["observe"]]
+        ops = ([["set_state_si"] + setst] if setst else []) + [["sysinfo"], ["setup"], ["observe"]]
         if coobs:
             ops.append(["kinetics", entries, ac, gen.draw_us(ru)])
         ops += [["drive", [["iterate"], ["observe"]], C.fixed_steps_needed(sp) + 3], ["output"], ["finalize"]]
@@ -176,8 +184,9 @@ def check(case, results):
         for ev in bad:
             v.append(dict(oracle="C04.no-exception", op=ev["i"], detail=ev["exc"] + "\n" + ev.get("tb", "")))
         evs = {ev["i"]: ev for ev in res.events if ev["e"] == ei and "exc" not in ev and not ev.get("skipped")}
-        if 0 in evs:
-            si_ev = evs[0]
+        si_list = [e_ for e_ in evs.values() if e_["op"] == "sysinfo"]
+        if si_list:
+            si_ev = si_list[0]
             fq = si.QUANTITY[si_ev["state_q"]]
             st = np.frombuffer(si_ev["state"], dtype=np.float64).reshape(m.ns, m.nc) * fq
             if si_ev["state_dim"] != [0, 0, 1]:
